@@ -32,6 +32,10 @@ pub struct ThreadPlan {
     /// be started"); every later call with the first.
     #[serde(default)]
     pub failing_spawns: Vec<u64>,
+    /// what those spawns fail with: false = EAGAIN (resources), true = ENOENT (for a moment there
+    /// is no such program: a toolchain being updated, a PATH race)
+    #[serde(default)]
+    pub spawn_error_not_found: bool,
     /// the name and stack size of the OS thread (None / 0 = unnamed, 16 MiB): what a call returns
     /// must not depend on which thread makes it
     #[serde(default)]
@@ -315,6 +319,7 @@ struct C18Backend {
     tid: usize,
     tick_ns: u64,
     failing_spawns: Vec<u64>,
+    spawn_error_not_found: bool,
     spawn_count: AtomicU64,
     formatter_fault_in_this_call: std::sync::atomic::AtomicBool,
     fmt: FmtPlan,
@@ -346,7 +351,11 @@ impl Backend for C18Backend {
         let nth = self.spawn_count.fetch_add(1, Ordering::Relaxed) + 1;
         if self.failing_spawns.contains(&nth) {
             self.formatter_fault_in_this_call.store(true, Ordering::Relaxed);
-            return Some(Err(std::io::Error::from_raw_os_error(libc::EAGAIN)));
+            return Some(Err(std::io::Error::from_raw_os_error(if self.spawn_error_not_found {
+                libc::ENOENT
+            } else {
+                libc::EAGAIN
+            })));
         }
         Some(
             procsim::spawn(
@@ -539,6 +548,7 @@ fn run_process(input: &WorkerInput) -> WorkerOutput {
                     tid,
                     tick_ns,
                     failing_spawns: tplan.failing_spawns.clone(),
+                    spawn_error_not_found: tplan.spawn_error_not_found,
                     spawn_count: AtomicU64::new(0),
                     formatter_fault_in_this_call: std::sync::atomic::AtomicBool::new(false),
                     fmt,
@@ -1005,6 +1015,7 @@ fn pristine_process(job_count: usize) -> ProcessPlan {
         threads: vec![ThreadPlan {
             alloc_point_every: 0,
             failing_spawns: vec![],
+            spawn_error_not_found: false,
             name: None,
             stack_mib: 0,
             entropy: 0,
@@ -1260,6 +1271,7 @@ pub fn gen_plan(rng: &mut Rng) -> RunPlan {
                     vec![]
                 },
                 while_unwinding: vec![],
+                spawn_error_not_found: rng.chance(400),
                 name: if rng.chance(400) {
                     Some(rng.pick(&["main", "build-script-build", "worker-7", "tokio-runtime-worker", "rayon-3", "名前"]).to_string())
                 } else {
